@@ -257,6 +257,16 @@ func (t *Thread) Yield(args []Value) ([]Value, error) {
 // running.
 func (t *Thread) end(args []Value, err error, exception interface{}) {
 	caller := t.caller
+	// The pending to-be-closed values are dealt with while the thread is still
+	// running and before any lock is taken: their handlers run Lua code, which
+	// may itself resume, yield or close coroutines.
+	if exception == nil {
+		err, exception = t.closeOnEnd(err)
+	} else {
+		// The context was terminated: no resources to run the handlers, so just
+		// discard them (as CallContext does).
+		t.closeStack.truncate(0)
+	}
 	t.mux.Lock()
 	caller.mux.Lock()
 	defer t.mux.Unlock()
@@ -270,10 +280,27 @@ func (t *Thread) end(args []Value, err error, exception interface{}) {
 	close(t.resumeCh)
 	t.status = ThreadDead
 	t.caller = nil
-	err = t.cleanupCloseStack(nil, 0, err) // TODO: not nil
 	t.closeErr = err
+	// The goroutine will terminate after this.  This must happen before
+	// control is handed over to the caller thread.
+	t.ReleaseBytes(2 << 10)
 	caller.sendResumeValues(args, err, exception)
-	t.ReleaseBytes(2 << 10) // The goroutine will terminate after this
+}
+
+// closeOnEnd runs the handlers of the pending to-be-closed values of a thread
+// that is ending.  If the context is terminated while they run, the
+// termination is returned so that it can be forwarded to the caller thread.
+func (t *Thread) closeOnEnd(err error) (closeErr error, exception interface{}) {
+	defer func() {
+		if r := recover(); r != nil {
+			if _, ok := r.(ContextTerminationError); !ok {
+				panic(r)
+			}
+			t.closeStack.truncate(0)
+			closeErr, exception = err, r
+		}
+	}()
+	return t.cleanupCloseStack(nil, 0, err), nil
 }
 
 func (t *Thread) call(c Callable, args []Value, next Cont) error {
